@@ -1,7 +1,7 @@
 (* C16 — property theorems only (statements + [exact]); proofs are in Proofs.v / VrfProofs.v / VrfInst.v. *)
 From Coq Require Import List NArith ZArith Znumtheory Bool.
 From V.Base Require Import Hex BigEndian.
-From V.C16 Require Import Model Proofs Vrf VrfProofs VrfInst.
+From V.C16 Require Import Model Proofs FloatProofs Vrf VrfProofs VrfInst.
 Import ListNotations.
 Local Open Scope Z_scope.
 
@@ -76,6 +76,33 @@ Theorem C16_qn_float_refuted : exists p (pi : bytes) h wm ts,
   validate_float p pi h wm ts = VR true (QN (maxqn p + 1)).
 Proof. exact qn_float_refuted. Qed.
 Print Assumptions C16_qn_float_refuted.
+
+(* ... and that is all the float path can do: for every proof, height, miner count and total stake the
+   computed ok flag is the exact one, the conversion stays in the normal binary64 range, and the
+   computed qn is the exact qn or the exact qn + 1 (MaxQN < 2^52; the node has MaxQN = 5) *)
+Theorem C16_qn_float_within_one : forall p (pi : bytes) h wm ts q,
+  1 <= maxqn p -> maxqn p < 2 ^ 52 -> bytes_ok pi -> 0 <= ts ->
+  (Z.of_N (vrf_value pi) < max256 \/ stake_num p h wm ts <= stake_den ts) ->
+  validate_float p pi h wm ts = VR true q ->
+  exists n, validate_exact p pi h wm ts = VR true (QN n) /\ 1 <= n <= maxqn p /\
+            (q = QN n \/ q = QN (n + 1)).
+Proof. exact validate_float_vs_exact. Qed.
+Print Assumptions C16_qn_float_within_one.
+
+(* so what validateProve computes for an accepted proof is always a number in 1..MaxQN+1 (never a
+   panic, never an undefined float -> uint64 conversion); MaxQN+1 is attained (C16_qn_float_refuted) *)
+Theorem C16_qn_range_float : forall p (pi : bytes) h wm ts q,
+  1 <= maxqn p -> maxqn p < 2 ^ 52 -> bytes_ok pi -> 0 <= ts ->
+  (Z.of_N (vrf_value pi) < max256 \/ stake_num p h wm ts <= stake_den ts) ->
+  validate_float p pi h wm ts = VR true q ->
+  exists n, q = QN n /\ 1 <= n <= maxqn p + 1.
+Proof. exact validate_float_range. Qed.
+Print Assumptions C16_qn_range_float.
+
+(* float64(n) of the model is exact below 2^53 (uint64 -> float64 of small stakes, Floor(r) + 1) *)
+Theorem C16_f64_int_exact : forall n, 0 <= n < 2 ^ 53 -> f64_int n = n.
+Proof. exact f64_int_small. Qed.
+Print Assumptions C16_f64_int_exact.
 
 (* qn is a function of (first 32 bytes of the padded proof, height, working miners, total stake) *)
 Theorem C16_qn_function : forall p (pi pi' : bytes) h wm ts,
